@@ -31,7 +31,7 @@ struct C04 : Property
 	{
 		return {"reset.with_pending_member_name", "reset.inside_nested_containers", "reset.inside_string", "reset.inside_number", "reset.after_error", "reset.after_success",
 		        "free.with_partial_state", "error.depth_at_limit_1", "error.size_bad_length", "feed.c_string_mode", "feed.zero_length", "printbuf_growth.long_token",
-		        "mirror.compared_calls", "outcome.success", "outcome.continue", "fault.alloc_inside_parse", "outcome.memory_error_then_reset"};
+		        "mirror.compared_calls", "outcome.success", "outcome.continue", "fault.alloc_inside_parse", "outcome.memory_error_then_reset", "parse_verbose.compared"};
 	}
 	std::map<std::string, int64_t> cfg_defaults() const override { return {}; }
 
@@ -129,6 +129,14 @@ struct C04 : Property
 				pos += len;
 				if (r.chance(1, 20))
 					op0("badlen", {-(int64_t)r.range(2, 1000)});
+				if (r.chance(1, 25))
+				{
+					Op pv;
+					pv.kind = "pv";
+					pv.data = bytes.substr(0, bytes.find('\0'));
+					pv.a = {(int64_t)r.below(2)};
+					p.ops.push_back(pv);
+				}
 			}
 			switch (r.below(7))
 			{
@@ -288,6 +296,31 @@ struct C04 : Property
 				if (!g_alloc.live.empty())
 					ctx.fail("C04:leak@" + g_alloc.first_live_site(), "after json_tokener_free %zu allocation(s) made by the session remain:%s",
 					         g_alloc.live.size(), g_alloc.describe_live().c_str());
+			}
+			else if (op.kind == "pv")
+			{
+				// the convenience entry points (own tokener, default depth, C string): same answer as parse_ex on the same bytes + NUL
+				std::string z = op.data.substr(0, op.data.find('\0'));
+				std::string zt = z + std::string(1, '\0');
+				ExactBuf b(zt);
+				enum json_tokener_error err = json_tokener_success;
+				struct json_object *o = (op.arg(0) & 1) ? LIB(json_tokener_parse(b.p)) : LIB(json_tokener_parse_verbose(b.p, &err));
+				ParseResult ref = oneshot(zt, 0, JSON_TOKENER_DEFAULT_DEPTH);
+				std::string want = ref.err == json_tokener_success ? ref.dump : std::string("<none>");
+				std::string got = o ? typed_dump(o) : ((op.arg(0) & 1) || err != json_tokener_success ? std::string("<none>") : std::string("null"));
+				if (ref.err == json_tokener_success && !ref.has_value && !o)
+					got = want; // JSON null: NULL with success
+				if (o)
+					LIBV(json_object_put(o));
+				if (got != want)
+					ctx.fail("C04:convenience-parse-differs", "json_tokener_parse%s(%s) gives %s, parse_ex on the same bytes gives %s (%s)", (op.arg(0) & 1) ? "" : "_verbose",
+					         printable(z, 60).c_str(), got.substr(0, 100).c_str(), want.substr(0, 100).c_str(), json_tokener_error_desc((enum json_tokener_error)ref.err));
+				if (!(op.arg(0) & 1) && (int)err != ref.err)
+					ctx.fail("C04:convenience-parse-differs", "json_tokener_parse_verbose(%s) reports '%s', parse_ex reports '%s'", printable(z, 60).c_str(), json_tokener_error_desc(err),
+					         json_tokener_error_desc((enum json_tokener_error)ref.err));
+				ctx.probe("parse_verbose.compared");
+				ctx.log("op %zu pv %zu bytes -> %s", oi, z.size(), got.substr(0, 60).c_str());
+				ctx.cover(std::string("pv|") + (o ? "value" : "none"));
 			}
 			else if (op.kind == "feed" || op.kind == "feedz" || op.kind == "badlen")
 			{
